@@ -221,74 +221,135 @@ def r18d(ctx):
     ctx.rule("R18d", "cycle guard: the iterative builder compares the node being expanded with its ancestors on the work "
                      "stack by identity (`is`), over the whole stack, and either raises or appends the placeholder; "
                      "recursive builders over user object graphs have an ancestor guard")
+    from ..astx import class_helpers, ancestors as _anc
     bq = m.need_class("Builder")
     bt = m.method(bq, "build_tree")
     f = bt.file
-    wk = pat.first("while W:\n    pass", bt.node)[1]
     workv = next((dotted(x.test) for x in walk_no_nested(bt.node) if isinstance(x, ast.While) and isinstance(x.test, ast.Name)), "work")
-    loops = [l for l in walk_no_nested(bt.node) if isinstance(l, ast.For) and dotted(l.iter) == workv]
-    if not loops:
+    region = class_helpers(m, bq, bt)
+    # names under which the work stack is known in each function of the region (parameter aliasing through self-calls)
+    stack_names = {bt.qual: {workv}}
+    changed = True
+    while changed:
+        changed = False
+        for g in region:
+            for c in walk_no_nested(g.node):
+                if isinstance(c, ast.Call) and isinstance(c.func, ast.Attribute) and isinstance(c.func.value, ast.Name) and c.func.value.id == "self":
+                    h = m.method(bq, c.func.attr)
+                    if h is None or h.qual not in [x.qual for x in region]:
+                        continue
+                    hp = [p_ for p_ in func_params(h.node) if p_ != "self"]
+                    for k_, a in enumerate(c.args):
+                        if dotted(a) in stack_names.get(g.qual, set()) and k_ < len(hp) and hp[k_] not in stack_names.setdefault(h.qual, set()):
+                            stack_names[h.qual].add(hp[k_])
+                            changed = True
+    scans = []     # (function, node that iterates the stack, comparisons inside)
+    for g in region:
+        names = stack_names.get(g.qual, set())
+        for x in walk_no_nested(g.node):
+            if isinstance(x, ast.For) and (dotted(x.iter) in names or (isinstance(x.iter, ast.Subscript) and dotted(x.iter.value) in names)):
+                scans.append((g, x, x.iter, [c for c in ast.walk(x) if isinstance(c, ast.Compare)]))
+            elif isinstance(x, (ast.GeneratorExp, ast.ListComp)) and any(dotted(gen.iter) in names or (isinstance(gen.iter, ast.Subscript) and dotted(gen.iter.value) in names)
+                                                                        for gen in x.generators):
+                it = next(gen.iter for gen in x.generators if dotted(gen.iter) in names or isinstance(gen.iter, ast.Subscript))
+                scans.append((g, x, it, [c for c in ast.walk(x) if isinstance(c, ast.Compare)]))
+    if not scans:
         ctx.violation("R18d", f, "Builder.build_tree", bt.node, "ancestor scan",
                       "the builder no longer scans its work stack for the node being expanded: a cyclic structure is "
                       "expanded forever")
-    for l in loops:
-        cmps = [c for c in ast.walk(l) if isinstance(c, ast.Compare)]
+    for g, node, it, cmps in scans:
         ident = [c for c in cmps if isinstance(c.ops[0], ast.Is)]
         eqs = [c for c in cmps if isinstance(c.ops[0], ast.Eq)]
         if ident and not eqs:
-            ctx.proved("R18d", f, "Builder.build_tree", l, "identity comparison over the stack",
+            ctx.proved("R18d", f, g.short, node, "identity comparison over the stack",
                        f"`{norm(ident[0])}` for every entry of the work stack (ancestors only: shared sub-objects are not cycles)")
         else:
-            ctx.violation("R18d", f, "Builder.build_tree", (eqs or [l])[0], "identity comparison over the stack",
-                          f"ancestors are compared with `{norm((eqs or cmps or [l])[0], 40)}` instead of `is`: two distinct but "
+            ctx.violation("R18d", f, g.short, (eqs or [node])[0], "identity comparison over the stack",
+                          f"ancestors are compared with `{norm((eqs or cmps or [node])[0], 40)}` instead of `is`: two distinct but "
                           f"equal sub-objects (e.g. [[], []] or shared values) are mistaken for a cycle")
-        # either raise or placeholder on every path of the match
-        hit = [i for i in ast.walk(l) if isinstance(i, ast.If) and any(isinstance(c, ast.Compare) and isinstance(c.ops[0], (ast.Is, ast.Eq))
-                                                                      for c in ast.walk(i.test))]
-        ok = False
-        for i in hit:
-            inner = [x for x in i.body if isinstance(x, ast.If)]
-            if inner:
-                a = any(isinstance(c, ast.Call) and (call_name(c) or "").endswith("CyclicReference") for c in ast.walk(inner[0]))
-                r = any(isinstance(x, ast.Raise) for x in ast.walk(ast.Module(body=inner[0].orelse, type_ignores=[])))
-                ok = a and r and "ignore_cycles" in ast.unparse(inner[0].test)
+        if isinstance(it, ast.Subscript):
+            ctx.violation("R18d", f, g.short, node, "whole stack", f"only `{norm(it)}` of the stack is scanned")
+    # on a hit: placeholder if cycles are ignored, ValueError otherwise - somewhere in the region an `if` on ignore_cycles has
+    # the raise on one side and the CyclicReference on the other (its own arms, or the statements following it)
+    ok = False
+    for g in region:
+        for i_ in walk_no_nested(g.node):
+            if isinstance(i_, ast.If) and "ignore_cycles" in ast.unparse(i_.test):
+                from ..astx import block_of
+                lst, idx = block_of(i_)
+                scope_nodes = list(ast.walk(i_)) + [y for s_ in (lst[idx + 1:] if lst else []) for y in ast.walk(s_)]
+                has_raise = any(isinstance(y, ast.Raise) for y in scope_nodes)
+                has_ph = any(isinstance(y, ast.Call) and (call_name(y) or "").endswith("CyclicReference") for y in scope_nodes)
+                ok = ok or (has_raise and has_ph)
+    if scans:
         if ok:
-            ctx.proved("R18d", f, "Builder.build_tree", l, "raise or placeholder",
+            ctx.proved("R18d", f, "Builder.build_tree", scans[0][1], "raise or placeholder",
                        "on a hit: CyclicReference placeholder if ignore_cycles, else ValueError")
         else:
-            ctx.violation("R18d", f, "Builder.build_tree", l, "raise or placeholder",
+            ctx.violation("R18d", f, "Builder.build_tree", scans[0][1], "raise or placeholder",
                           "a detected cycle is neither reported (ValueError) nor replaced by the placeholder on every path")
-        slc = [s for s in ast.walk(l.iter) if isinstance(s, ast.Subscript)]
-        if slc:
-            ctx.violation("R18d", f, "Builder.build_tree", l, "whole stack", f"only `{norm(l.iter)}` of the stack is scanned")
-    # the guard must not be skipped: conditions that disable it other than the options
-    for l in loops:
-        facts = [ast.unparse(t) for t, pol in flatten_conditions(dominating_conditions(l))]
-        leafnames = {s_.targets[0].id for s_ in walk_no_nested(bt.node) if isinstance(s_, ast.Assign) and isinstance(s_.targets[0], ast.Name)
-                     and any(isinstance(c, ast.Call) and call_name(c) == "all" for c in ast.walk(s_.value))}
-        listnames = {s_.targets[0].id for s_ in walk_no_nested(bt.node) if isinstance(s_, ast.Assign) and isinstance(s_.targets[0], ast.Name)
-                     and isinstance(s_.value, ast.Call) and call_name(s_.value) == "list"} | \
-                    {x.id for s_ in walk_no_nested(bt.node) if isinstance(s_, ast.Assign) and isinstance(s_.targets[0], ast.Tuple)
-                     for x in s_.targets[0].elts if isinstance(x, ast.Name)}
-        extra = [x for x in facts if "check_for_cycles" not in x and x != workv
-                 and not any(nm in x for nm in leafnames | listnames)]
+    # the guard must not be skipped: conditions that disable it other than the options and the leaf shortcut
+    leafnames = {s_.targets[0].id for g in region for s_ in walk_no_nested(g.node) if isinstance(s_, ast.Assign) and isinstance(s_.targets[0], ast.Name)
+                 and any(isinstance(c, ast.Call) and call_name(c) in ("all", "any") for c in ast.walk(s_.value))}
+    listnames = {s_.targets[0].id for s_ in walk_no_nested(bt.node) if isinstance(s_, ast.Assign) and isinstance(s_.targets[0], ast.Name)
+                 and isinstance(s_.value, ast.Call) and call_name(s_.value) == "list"} | \
+                {x.id for s_ in walk_no_nested(bt.node) if isinstance(s_, ast.Assign) and isinstance(s_.targets[0], ast.Tuple)
+                 for x in s_.targets[0].elts if isinstance(x, ast.Name)}
+    helper_names = {g.node.name for g in region}
+    for g, node, it, cmps in scans:
+        anchor = node
+        if not isinstance(node, ast.For):
+            anchor = next((a for a in _anc(node) if isinstance(a, ast.stmt)), node)
+        facts = [ast.unparse(t) for t, pol in flatten_conditions(dominating_conditions(anchor))]
+        # conjuncts that sit in the same test as the scan
+        encl = next((a for a in _anc(node) if isinstance(a, ast.If)), None)
+        if encl is not None and any(node is y for y in ast.walk(encl.test)) and isinstance(encl.test, ast.BoolOp):
+            facts += [ast.unparse(v) for v in encl.test.values if not any(node is y for y in ast.walk(v))]
+        allowed = leafnames | listnames | set(stack_names.get(g.qual, ())) | set(func_params(g.node)) | helper_names
+        extra = [x for x in facts if "check_for_cycles" not in x and not any(nm in x for nm in allowed) and x not in ("True",)]
+        # and the chain of calls that leads from build_tree to the helper holding the scan
+        if g.qual != bt.qual:
+            for c in walk_no_nested(bt.node):
+                if isinstance(c, ast.Call) and self_attr(c.func) == g.node.name:
+                    st = next((a for a in _anc(c) if isinstance(a, ast.stmt)), None)
+                    cf = [ast.unparse(t) for t, pol in flatten_conditions(dominating_conditions(st))] if st is not None else []
+                    if isinstance(st, ast.If) and isinstance(st.test, ast.BoolOp):
+                        cf += [ast.unparse(v) for v in st.test.values if not any(c is y for y in ast.walk(v))]
+                    extra += [x for x in cf if "check_for_cycles" not in x and x != workv and not any(nm in x for nm in leafnames | listnames | helper_names)]
         if extra:
-            ctx.violation("R18d", f, "Builder.build_tree", l, "guard reachable",
+            ctx.violation("R18d", f, g.short, node, "guard reachable",
                           f"the ancestor scan only runs under {extra}: some cyclic shapes bypass it")
         else:
-            ctx.proved("R18d", f, "Builder.build_tree", l, "guard reachable",
+            ctx.proved("R18d", f, g.short, node, "guard reachable",
                        "the scan runs whenever the child has non-leaf grandchildren and cycle checking is on")
     # the leaf shortcut that skips the scan must use the same expansion as the traversal itself
-    leafdefs = [s_ for s_ in walk_no_nested(bt.node) if isinstance(s_, ast.Assign) and isinstance(s_.targets[0], ast.Name)
-                and any(isinstance(c, ast.Call) and call_name(c) == "all" for c in ast.walk(s_.value))]
-    for s_ in leafdefs:
-        uses_expand = [c for c in ast.walk(s_.value) if isinstance(c, ast.Call) and self_attr(c.func) == "expand"]
-        if uses_expand:
-            ctx.proved("R18d", f, "Builder.build_tree", s_, "leaf shortcut uses expand()",
+    def reaches_expand(e, depth=0):
+        for c in ast.walk(e):
+            if isinstance(c, ast.Call) and self_attr(c.func) == "expand":
+                return True
+            if isinstance(c, ast.Call) and self_attr(c.func) and depth < 2:
+                h = m.method(bq, self_attr(c.func))
+                if h is not None and h.node.name != "build_tree" and any(reaches_expand(s_, depth + 1) for s_ in h.node.body):
+                    return True
+        return False
+    shortcuts = []
+    for g in region:
+        if g.node.name in ("expand", "resolve_expander", "resolve_builder"):
+            continue
+        for c in walk_no_nested(g.node):
+            if isinstance(c, ast.Call) and call_name(c) in ("all", "any") and c.args and isinstance(c.args[0], (ast.GeneratorExp, ast.ListComp)):
+                gen = c.args[0].generators[0]
+                over_stack = dotted(gen.iter) in stack_names.get(g.qual, set())
+                outer = next((a for a in _anc(c) if isinstance(a, ast.Call) and call_name(a) in ("all", "any")), None)
+                if not over_stack and outer is None and (dotted(gen.iter) in listnames or dotted(gen.iter) in func_params(g.node)):
+                    shortcuts.append((g, c))
+    for g, c in shortcuts:
+        if reaches_expand(c):
+            ctx.proved("R18d", f, g.short, c, "leaf shortcut uses expand()",
                        "a grandchild counts as a leaf only if self.expand(grandchild) yields nothing - the same expansion the traversal uses")
         else:
-            ctx.violation("R18d", f, "Builder.build_tree", s_, "leaf shortcut uses expand()",
-                          f"`{norm(s_, 90)}` decides 'leaf' without calling self.expand(): objects expanded by "
+            ctx.violation("R18d", f, g.short, c, "leaf shortcut uses expand()",
+                          f"`{norm(c, 90)}` decides 'leaf' without calling self.expand(): objects expanded by "
                           f"default_expander (custom classes) have children but count as leaves, so a cycle running only "
                           f"through such objects skips the ancestor scan and is expanded forever")
     # recursive builders
